@@ -3,7 +3,11 @@
 SUF=$1; mkdir -p /verif/logs/round$SUF
 declare -A CHK=( [C01]="C01 C17" [C02]="C02 C17 C07" [C03]="C03 C11" [C04]="C04 C12" [C05]="C05 C01 C06" [C06]="C06 C17 C05" [C07]="C07 C19" [C08]="C08 C03 C16" [C09]="C09 C10" [C10]="C10 C09" [C11]="C11 C03 C09" [C12]="C12 C04" [C13]="C13" [C14]="C14 C18" [C15]="C15 C19 C07" [C16]="C16 C19" [C17]="C17 C01 C02" [C18]="C18 C14 C15" [C19]="C19 C15 C08" [C20]="C20 C08" )
 jobs_list=()
-for d in /tmp/seed/*$SUF/_seed/*; do [ -f $d/patch.diff ] && jobs_list+=("$d"); done
+for d in /tmp/seed/*$SUF/_seed/*; do
+  pid=$(basename $(dirname $(dirname $d))); pid=${pid%$SUF}
+  [ -n "$ONLY" ] && ! echo " $ONLY " | grep -q " $pid " && continue
+  [ -f $d/patch.diff ] && [ -f $d/meta.json ] && jobs_list+=("$d")
+done
 run_one() {
   d=$1; slot=$2
   id=$(basename $(dirname $(dirname $d))); id=${id%$SUF}; n=$(basename $d)
